@@ -66,6 +66,24 @@ func newAEAD(key []byte, nonceSize, tagSize int) (cipher.AEAD, string, error) {
 	return nil, "stdlib-generic", fmt.Errorf("unsupported (nonce %d, tag %d) on the portable path", nonceSize, tagSize)
 }
 
+// aeadFromBlock is newAEAD on an existing Block (several AEADs may share one Block); the public crypto/cipher
+// constructors are used where they can express the parameters, so that whatever hook the Block offers to them is the
+// code under test.
+func aeadFromBlock(b cipher.Block, nonceSize, tagSize int) (cipher.AEAD, error) {
+	switch {
+	case nonceSize == 12 && tagSize == 16:
+		return cipher.NewGCM(b)
+	case tagSize == 16:
+		return cipher.NewGCMWithNonceSize(b, nonceSize)
+	case nonceSize == 12:
+		return cipher.NewGCMWithTagSize(b, tagSize)
+	}
+	if g, ok := b.(gcmAble); ok {
+		return g.NewGCM(nonceSize, tagSize)
+	}
+	return nil, fmt.Errorf("unsupported (nonce %d, tag %d) on the portable path", nonceSize, tagSize)
+}
+
 func refCipher(key []byte) *sm4ref.Cipher { return sm4ref.New(key) }
 
 // fillLen returns deterministic content for a buffer of the given role and length.
